@@ -97,6 +97,17 @@ def gen_cases(rng, tier):
                'color': rng.randrange(256), 'pal4': rng.choice([0, -1, -2, -8, -100, -101, 1, 5, i16()]),
                'pal5': rng.choice([0, -1, -7, -101, 3, i16()]), 'len': rng.choice([80, 84, 100]),
                'fill': bytes(rng.randrange(256) for _ in range(100))}
+        if k % 4 == 0:
+            # marker tables whose name offsets are not in order (rejected since 3c0b99b) or reach outside the pool
+            n = rng.randrange(1, 6)
+            pool = bytes(rng.randrange(65, 91) for _ in range(rng.randrange(0, 12)))
+            offs = [rng.choice([0, 1, len(pool), rng.randrange(0, len(pool) + 3), -1, -rng.randrange(1, 40)]) for _ in range(n + 1)]
+            if rng.random() < 0.4:
+                offs.sort()
+            d = struct.pack('>h', n)
+            for o in offs:
+                d += struct.pack('>hh', rng.randrange(1, 50), o)
+            yield {'kind': 'raw', 'parser': 'vwlb', 'data': d + pool, 'bo': 0}
         if k % 3 == 0:
             # malformed stream
             base = encode(rng.choice([c for c in [
